@@ -100,6 +100,10 @@ func (x *X) DevPerm(n int, label string) []int {
 	return append(out, idx[0])
 }
 
+// NewReplayX returns an execution that replays the given choices and takes
+// alternative 0 afterwards (used to rebuild a recorded history inside a scenario).
+func NewReplayX(choices []int) *X { return &X{prefix: choices, maxDevs: -1} }
+
 // Note attaches a human-readable line to this execution (for replays/samples).
 func (x *X) Note(format string, a ...any) {
 	x.notes = append(x.notes, fmt.Sprintf(format, a...))
@@ -190,7 +194,13 @@ type frame struct {
 
 // Explore enumerates every path of scn's choice tree within the bounds.
 func Explore(item string, scn Scenario, b Bounds, st *Stats, tier string) {
-	stack := []frame{{}}
+	ExploreFrom(item, scn, nil, b, st, tier)
+}
+
+// ExploreFrom enumerates the subtree below the given choice prefix.
+func ExploreFrom(item string, scn Scenario, prefix []int, b Bounds, st *Stats, tier string) {
+	stack := []frame{{prefix: append([]int(nil), prefix...)}}
+	rootLen := len(prefix)
 	sampleEvery := int64(1)
 	for len(stack) > 0 {
 		if !b.Deadline.IsZero() && time.Now().After(b.Deadline) {
@@ -207,7 +217,7 @@ func Explore(item string, scn Scenario, b Bounds, st *Stats, tier string) {
 		out := runOne(scn, x)
 		st.Executions++
 		newPts := len(x.trace) - len(f.prefix)
-		if len(f.prefix) > 0 {
+		if len(f.prefix) > rootLen {
 			newPts++ // the deviating edge itself
 		}
 		if newPts < 1 {
@@ -264,7 +274,7 @@ func Explore(item string, scn Scenario, b Bounds, st *Stats, tier string) {
 			}
 			if p.cost > 0 && b.MaxDevs >= 0 {
 				used := 0
-				for j := 0; j < i; j++ {
+				for j := rootLen; j < i; j++ { // deviations inside the root prefix are not re-budgeted
 					if x.trace[j].chosen > 0 {
 						used += x.trace[j].cost
 					}
